@@ -12,6 +12,7 @@ tied to the Go source by layer 1, and the arithmetic is tied to the running code
 -/
 import RegexVerif.Lemmas.Capacity
 import RegexVerif.Lemmas.VMCapacity
+import RegexVerif.Lemmas.Compose
 
 namespace RegexVerif.Props.C13
 open RegexVerif RegexVerif.Capacity RegexVerif.Lemmas.Capacity RegexVerif.Generated
@@ -351,5 +352,72 @@ example : demo.wf = true ∧ potOk demo = true ∧ phi (wsOf demo) 0 = 9 ∧
     ensOf (-1) 5 (alloc0 (-1) 5) 0 = some 64 := by decide
 
 end VMRefinement
+
+/-! ------------------------------------------------------------------------------------------------
+### 5. Composition with the writer: the capacity theorem for every pattern tree
+
+`Writer.emit` is the program `syntax.Write` produces (Model/Writer.lean, tied word for word by leg Wr).  Both
+hypotheses of `vm_track_no_overflow_program` — the interpreter's `Prog.wf` and `potOk` — are discharged here
+for every tree with the decidable `Writer.treeWf` (what the parser guarantees; evaluated by leg Wr on every
+parsed tree), for the main and the bool-only program.
+------------------------------------------------------------------------------------------------ -/
+
+section Emitted
+open RegexVerif.VM RegexVerif.Lemmas.VM RegexVerif.Lemmas.VMCapacity RegexVerif.Writer RegexVerif.Lemmas.Compose
+
+/-- **The potential of every emitted program is covered.**  `Σ wsOf` over the code positions of the emitted
+    program is the sum of the opcode weights of its instructions (`Lemmas.Compose.wsOf_sum_progOf`), the writer
+    pairs every `Nullmark` with a `Goto` and `TrackCount` counts the backtracking instructions
+    (`Props.C01.emit_trackcount`), so `potential_le_need` gives `Φ(0) ≤ 4·TrackCount`. -/
+theorem emit_potOk (ti : TreeInfo) (root : GoNode) (h : treeWf ti root = true) : potOk (emit ti root) = true :=
+  Lemmas.Compose.emit_potOk potential_le_need ti root h
+
+/-- the same for the bool-only program, which keeps the first program's `TrackCount` and has a subset of its
+    backtracking instructions -/
+theorem emitQuick_potOk (ti : TreeInfo) (root : GoNode) (h : treeWf ti root = true) (qp : Code.Prog)
+    (hq : emitQuick ti root = some qp) : potOk qp = true :=
+  Lemmas.Compose.emitQuick_potOk potential_le_need ti root h qp hq
+
+/-- **No overflow of the backtracking stack for any pattern.**  For every well-formed tree, every stack limit `L`
+    (negative = none), every text, start position in the text, `\G` origin and oracles: start the attempt of the
+    emitted program as `executeDefault` does — the check `ensureStorage` with nothing used, from any current
+    length `capA` of `runtrack` (`alloc0 L TrackCount` after `initMatch`, or whatever a pooled runner kept) —
+    and run any number of iterations, every storage check replacing the capacity by the result of the modelled
+    `ensureStorage` loop; in every reachable state the slots in use fit in the capacity, and so do the slots in
+    use after the next iteration's pushes, before its own check: `Runtrackpos ≥ 0` at every store. -/
+theorem emitted_track_no_overflow (ti : TreeInfo) (root : GoNode) (h : treeWf ti root = true)
+    (env : Env) (L : Int) (pos : Int) (h0 : 0 ≤ pos) (hn : pos ≤ env.len) (s0 : VMState)
+    (hinit : VM.init (emit ti root) pos = .ok s0) (capA cap0 : Nat)
+    (hstart : ensOf L (emit ti root).trackcount capA 0 = some cap0) (s : VMState) (cap : Nat)
+    (hr : VMReach (ensOf L (emit ti root).trackcount) (emit ti root) env s0 cap0 s cap) :
+    s.track.length ≤ cap ∧ ∀ s' chk, VM.step (emit ti root) env s = .next s' chk → s'.track.length ≤ cap :=
+  vm_track_no_overflow_program (emit ti root) env L (Lemmas.Compose.emit_vm_wf ti root h) (emit_potOk ti root h)
+    pos h0 hn s0 hinit capA cap0 hstart s cap hr
+
+/-- the same for the bool-only program -/
+theorem emittedQuick_track_no_overflow (ti : TreeInfo) (root : GoNode) (h : treeWf ti root = true) (qp : Code.Prog)
+    (hq : emitQuick ti root = some qp)
+    (env : Env) (L : Int) (pos : Int) (h0 : 0 ≤ pos) (hn : pos ≤ env.len) (s0 : VMState)
+    (hinit : VM.init qp pos = .ok s0) (capA cap0 : Nat)
+    (hstart : ensOf L qp.trackcount capA 0 = some cap0) (s : VMState) (cap : Nat)
+    (hr : VMReach (ensOf L qp.trackcount) qp env s0 cap0 s cap) :
+    s.track.length ≤ cap ∧ ∀ s' chk, VM.step qp env s = .next s' chk → s'.track.length ≤ cap :=
+  vm_track_no_overflow_program qp env L (Lemmas.Compose.emitQuick_vm_wf ti root h qp hq)
+    (emitQuick_potOk ti root h qp hq) pos h0 hn s0 hinit capA cap0 hstart s cap hr
+
+/-! non-vacuity: the trees of `(?:ab?)*c` (potential 9 ≤ 4·5) and `(a)|b\1` (potential 13 ≤ 4·9); the first check
+    of an attempt succeeds from the initial allocation; `(x)y` has a bool-only program with the first program's
+    `TrackCount` 5 and potential 5 -/
+example : treeWf info1 tree1 = true ∧ potOk (emit info1 tree1) = true ∧ phi (wsOf (emit info1 tree1)) 0 = 9 ∧
+    treeWf info2 tree2 = true ∧ phi (wsOf (emit info2 tree2)) 0 = 13 ∧ (emit info2 tree2).trackcount = 9 ∧
+    ensOf (-1) 9 (alloc0 (-1) 9) 0 = some 72 ∧ ensOf 50 9 (alloc0 50 9) 0 = some 50 ∧ ensOf 30 9 (alloc0 30 9) 0 = none := by
+  decide
+example : ∃ s0, VM.init (emit info2 tree2) 0 = .ok s0 ∧
+    VMReach (ensOf 50 (emit info2 tree2).trackcount) (emit info2 tree2) demoEnv s0 50 s0 50 :=
+  ⟨_, rfl, .start⟩
+example : ∃ qp, emitQuick info2 tree3 = some qp ∧ qp.trackcount = 5 ∧ phi (wsOf qp) 0 = 5 :=
+  ⟨_, rfl, by decide, by decide⟩
+
+end Emitted
 
 end RegexVerif.Props.C13
